@@ -1,6 +1,6 @@
 """C05 — every file the writer reports complete is structurally valid Parquet (independent reference reader)."""
 from e2 import E2
-from props.C01 import shapes, STUBS, CODECS
+from props.C01 import shapes, STUBS, CODECS, shape, wides, deep, tab
 FILES = ['src/writer/file_writer.c', 'src/writer/row_group_writer.c', 'src/writer/column_writer.c', 'src/writer/page_writer.c', 'src/thrift/parquet_types.c',
          'src/thrift/thrift_encode.c', 'src/util/crc32.c', 'src/compression/snappy.c', 'src/compression/lz4.c']
 BUDGET = {'quick': 840, 'thorough': 3600}
@@ -9,11 +9,24 @@ BUDGET = {'quick': 840, 'thorough': 3600}
 def obligations(tier):
     o = shapes(tier, ref=True)
     # concrete content: stored page CRC == bitwise IEEE CRC-32 of the stored page bytes (no CRC summary in these runs)
-    from props.C01 import shape
     for ct in (1, 5, 0):
         for codec in ('unc', 'snappy', 'lz4'):
             o.append(shape(ct, 1, 6, 3, 1, 4, codec, ref=True, concrete=True, timeout=600))
     # determinism: same table, same options, written twice -> byte-identical files
     for ct, codec in ((1, 'unc'), (5, 'unc'), (2, 'snappy'), (0, 'lz4')):
         o.append(shape(ct, 1, 2 if ct == 5 else 4, 2, 1, 0, codec, extra=['-DTWICE'] + (['-DNULLS_ONLY'] if codec != 'unc' else []), tag='/twice', ref=False, timeout=900))
+    # footer lists around the Thrift list-header switch at 15 elements
+    o += wides(tier, ref=True)
+    if tier == 'quick':
+        return o
+    # deep tier: tables of up to 3 columns, every file validated by the reference reader (incl. page statistics as true bounds)
+    o += deep(ref=True)
+    # determinism on multi-column tables: symbolic content and concrete content under every codec / page size
+    PS3 = (1, 80, 1048576); C3 = ('unc', 'snappy', 'lz4')
+    o.append(tab('twice/conc/int32-ba-bool/r12-rg5.0.7', [(1, 1, 0, [2, 1]), (5, 1, 0, [3]), (0, 0, 0, [1, 4])], 12, rg=[5, 0, 7], ps=PS3, codec=C3, read=1, via=1, twice=True))
+    o.append(tab('twice/conc/double-flba16-int64/r12/roundrobin', [(4, 1, 0, [4, 0, 3]), (6, 0, 0, [12], 16), (2, 1, 0, [1])], 12, rg=[1, 11], order=2, ps=PS3, codec=C3, read=1, via=1, twice=True))
+    o.append(tab('twice/conc/float-allnull-ba/r9/filewriter', [(3, 0, 0, [1, 2]), (2, 1, 4, [3, 1]), (5, 0, 0, [2])], 9, wfile=True, trail0=True, ps=PS3, codec=C3, read=1, via=1, twice=True))
+    o.append(tab('twice/sym-int64/2col/r4', [(2, 1, 3, [1, 3]), (5, 1, 0, [4])], 4, ps=(1,), read=1, via=1, twice=True, timeout=3000))
+    o.append(tab('twice/sym-ba/2col/r3', [(0, 0, 0, [3]), (5, 1, 3, [2, 1])], 3, ps=(1048576,), read=1, via=1, twice=True, timeout=3000))
+    o.append(tab('twice/nulls-double-snappy/2col/r6', [(4, 1, 1, [3, 3]), (1, 0, 0, [6])], 6, ps=(1,), codec=('snappy',), read=1, via=1, twice=True, timeout=3000))
     return o
